@@ -17,9 +17,18 @@ package usage
 //@ props C08 C19
 //@ ghost usingGone bool = false
 //@ ghost labelPersisted bool = false
+//@ ghost counted bool = false
+//@ ghost lastOne bool = false
+//@ ghost rereadAfterCount bool = false
+//@ ghost unlabelled bool = false
 //@ site (client.Reader).Get(_, _, _, $obj) as Get-used
 //@   where $obj == used
 //@   update labelPersisted = err == nil && used.GetLabels()[inUseLabelKey] == "true"
+//@   update rereadAfterCount = counted
+//@ site (client.Reader).List(_, $l, $lopts...) as count-usages
+//@   where meta.WasDeleted(u)
+//@   update counted = true
+//@   update lastOne = err == nil && len(usageList.Items) < 2
 //@ site (client.Reader).Get(_, _, _, $obj) as Get-using
 //@   where $obj == using
 //@   update usingGone = call("k8s.io/apimachinery/pkg/api/errors.IsNotFound", err)
@@ -27,10 +36,13 @@ package usage
 //@ site (resource.Finalizer).RemoveFinalizer(_, _, $o)
 //@   assert [C08:finalizer-only-when-deleted] $o == u && meta.WasDeleted(u)
 //@   assert [C08:composed-usage-waits-for-using] (by != nil && u.Labels[xcrd.LabelKeyNamePrefixForComposed] != "") ==> usingGone
+//@   assert [C19:last-usage-goes-only-after-a-version-checked-label-removal] lastOne ==> unlabelled
 //@ site (client.Writer).Update(_, _, $o) as Update-used
 //@   where $o == used
 //@   assert [C19:label-removed-only-for-last-usage] meta.WasDeleted(u) ==> len(usageList.Items) < 2
 //@   assert [C19:label-added-when-live] !meta.WasDeleted(u) ==> used.GetLabels()[inUseLabelKey] == "true"
+//@   assert [C19:label-removal-writes-the-version-read-before-the-usages-were-counted] meta.WasDeleted(u) ==> counted && !rereadAfterCount
+//@   update unlabelled = err == nil && meta.WasDeleted(u)
 //@   update labelPersisted = err == nil && used.GetLabels()[inUseLabelKey] == "true"
 //@ site (*v1.ConditionedStatus).SetConditions(_, $cs...)
 //@   assert [C19:available-only-when-live] (len($cs) == 1 && $cs[0].Type == "Ready" && $cs[0].Status == "True") ==> !meta.WasDeleted(u)
